@@ -737,3 +737,34 @@ pub struct Pos {
     pub row: u16,
     pub col: u16,
 }
+
+#[cfg(vt100_verif)]
+impl Grid {
+    pub(crate) fn verif_dump(&self, out: &mut String) {
+        use std::fmt::Write as _;
+        let _ = write!(
+            out,
+            " g {} {} {} {} {} {} {} {} {} {} {} {} {} {}",
+            self.size.rows,
+            self.size.cols,
+            self.pos.row,
+            self.pos.col,
+            self.saved_pos.row,
+            self.saved_pos.col,
+            self.scroll_top,
+            self.scroll_bottom,
+            u8::from(self.origin_mode),
+            u8::from(self.saved_origin_mode),
+            self.scrollback_len,
+            self.scrollback_offset,
+            self.rows.len(),
+            self.scrollback.len(),
+        );
+        for row in &self.rows {
+            row.verif_dump(out);
+        }
+        for row in &self.scrollback {
+            row.verif_dump(out);
+        }
+    }
+}
